@@ -312,3 +312,23 @@ def wf(x):
         return all(wf(v) for k, v in x.items() if isinstance(v, (dict, list)))
     except Exception:
         return False
+
+
+def render_datum_loose(d):
+    """like render_datum but also for observable-form values (vec by content, unspec, proc)"""
+    t = d.get("t")
+    if t == "vec":
+        return "#(" + " ".join(render_datum_loose(x) for x in d["xs"]) + ")"
+    if t in ("unspec", "void", "proc"):
+        return "<" + t + ">"
+    if t == "pair":
+        parts = []
+        while d.get("t") == "pair":
+            parts.append(render_datum_loose(d["a"])); d = d["d"]
+        if d.get("t") != "nil":
+            parts += [".", render_datum_loose(d)]
+        return "(" + " ".join(parts) + ")"
+    try:
+        return render_datum(d)
+    except Exception:
+        return json.dumps(d)
